@@ -242,6 +242,9 @@ SMALL_TEXTS = [
     [('atom', 'C', None), ('open', '(', None), ('atom', 'Cl', None), ('close', ')', None), ('bond', '=', None), ('atom', 'O', None)],
     [('atom', '[NH3+]', None), ('atom', 'C', None), ('open', '(', None), ('bond', '=', None), ('atom', 'O', None), ('close', ')', None), ('atom', '[O-]', None)],
     [('atom', 'c', None), ('ring', '1', None), ('atom', 'c', None), ('atom', 'c', None), ('atom', 'c', None), ('atom', 'c', None), ('atom', 'c', None), ('ring', '1', None), ('atom', 'Br', None)],
+    [('atom', 'C', None), ('atom', 'S', None), ('atom', 'c', None), ('ring', '1', None), ('atom', 'c', None), ('atom', 'c', None), ('atom', 'c', None), ('atom', 'c', None), ('atom', 'c', None), ('ring', '1', None)],
+    [('atom', 'C', None), ('atom', 'n', None), ('ring', '1', None), ('atom', 'c', None), ('atom', 'c', None), ('atom', 'c', None), ('atom', 'c', None), ('ring', '1', None)],
+    [('atom', 'N', None), ('atom', 'C', None), ('atom', 'o', None), ('ring', '1', None), ('atom', 'c', None), ('atom', 'c', None), ('atom', 'c', None), ('atom', 'c', None), ('ring', '1', None)],
     [('atom', '[#A]', None), ('atom', '[#B]', None), ('open', '(', None), ('atom', '[#C]', None), ('close', ')', None), ('atom', '[#D]', None)],
     [('atom', '[#A]', None), ('ring', '=1', None), ('atom', '[#B]', None), ('bond', '.', None), ('atom', '[#C]', None), ('ring', '1', None)],
     [('atom', '[#A]', None), ('ring', '%123', None), ('atom', '[#B]', None), ('atom', '[#C]', None), ('ring', '%123', None)],
